@@ -86,6 +86,18 @@ def gen_world(r):
     for _ in range(r.randrange(0, 4)):
         kind = r.choice([0, 1, 2])
         rules.append((kind, rule_text(r, kind, r.choice(PATTERNS[:30]))))
+    # (seeds C16-1, C16-2, made deterministic after the full re-run of round 4 missed them) an excluded directory next to entries whose
+    # names merely START with its name and are scanned after it: sibling directories `build2`, `build.d` with content
+    if r.random() < 0.3:
+        top = r.choice(["", "src/"])
+        if top and "src" not in dirs:
+            spec.insert(0, {"p": "src", "k": "d"}); dirs.add("src")
+        for d in ("build", "build2", "build.d"):
+            if top + d not in dirs and top + d not in files:
+                dirs.add(top + d); spec.append({"p": top + d, "k": "d"})
+                spec.append({"p": top + d + "/inside.txt", "k": "f", "data": ("rand", r.randrange(1 << 30), 7)})
+        spec.sort(key=lambda e: (e["k"] != "d", e["p"]))
+        rules.append(r.choice([(2, "build/"), (2, "build"), (0, "- build/"), (2, top + "build/") if top else (2, "build/")]))
     rules = [x for x in rules if x[0] == 0] + [x for x in rules if x[0] == 1] + [x for x in rules if x[0] == 2]  # main.rs order
     mn = r.choice([None, None, 1, 10, 1024])
     mx = r.choice([None, None, 100, 2048, 4096])
